@@ -81,6 +81,24 @@ def Builtin.focusDep : Builtin → Bool
 /-- a focus: context item (absent = none), context position, context size -/
 abbrev Focus := Option Item × Nat × Nat
 
+/-- declared types of parameters and results of inline functions (`$x as xs:integer*`): item type … -/
+inductive ITy where
+  | item | atomic | integer | decimal | double | boolean | func
+  deriving DecidableEq, Repr, Inhabited
+
+/-- … and occurrence indicator (none, `?`, `*`, `+`) -/
+inductive Occ where
+  | one | opt | star | plus
+  deriving DecidableEq, Repr, Inhabited
+
+structure STy where
+  it : ITy
+  occ : Occ
+  deriving DecidableEq, Repr, Inhabited
+
+/-- signature: parameter types and result type -/
+abbrev Sig := List STy × STy
+
 /-- the expression fragment.  `fnE tok ps body`: inline function expression number `tok` of the
 program (its syntax token), `call f args` dynamic call with `none` = the placeholder `?`,
 `par e` = `(e)`. -/
@@ -95,6 +113,7 @@ inductive Expr where
   | forE (x : Nat) (s b : Expr)
   | letE (x : Nat) (v b : Expr)
   | fnE (tok : Nat) (ps : List Nat) (body : Expr)
+  | tfnE (tok : Nat) (ps : List Nat) (tys : List STy) (rt : STy) (body : Expr)
   | named (b : Builtin)
   | call (f : Expr) (args : List (Option Expr))
   | spart (b : Builtin) (args : List (Option Expr))
@@ -230,6 +249,72 @@ def Builtin.apF (b : Builtin) (foc : Focus) (args : List Seq) : Except Err Seq :
     | _, _ => .error .XPTY0004
   else b.ap args
 
+/-! ### function conversion rules (XPath 3.1 §3.1.5.2) for the fragment's types -/
+
+def Item.isFn : Item → Bool | .fn _ => true | _ => false
+
+/-- the generalized atomic types of the fragment -/
+def ITy.isAtomic : ITy → Bool
+  | .item => false | .func => false | _ => true
+
+/-- one item against an item type: `xs:integer` is an `xs:decimal`; integers and decimals are
+promoted to `xs:double`; anything else that does not match is a type error -/
+def convItem : ITy → Item → Except Err Item
+  | .item, x => .ok x
+  | .func, .fn a => .ok (.fn a)
+  | .atomic, .fn _ => .error .XPTY0004
+  | .atomic, x => .ok x
+  | .integer, .int n => .ok (.int n)
+  | .decimal, .int n => .ok (.int n)
+  | .decimal, .dec n => .ok (.dec n)
+  | .double, .int n => .ok (.dbl n)
+  | .double, .dec n => .ok (.dbl n)
+  | .double, .dbl n => .ok (.dbl n)
+  | .boolean, .bool b => .ok (.bool b)
+  | _, _ => .error .XPTY0004
+
+def Occ.ok : Occ → Nat → Bool
+  | .one, n => n == 1 | .opt, n => n ≤ 1 | .star, _ => true | .plus, n => n ≥ 1
+
+/-- a value against a sequence type: atomization first (a function item cannot be atomized:
+FOTY0013), then the cardinality and every item -/
+def convSeq (t : STy) (s : Seq) : Except Err Seq :=
+  if t.it.isAtomic && s.any Item.isFn then .error .FOTY0013
+  else if t.occ.ok s.length then s.mapM (convItem t.it)
+  else .error .XPTY0004
+
+/-- the arguments of a call against the parameter types, left to right -/
+def convArgs : List STy → List Seq → Except Err (List Seq)
+  | t :: ts, a :: as => do
+    let a' ← convSeq t a
+    let r ← convArgs ts as
+    pure (a' :: r)
+  | _, as => pure as
+
+/-- the fixed arguments of a partial application against the parameter types -/
+def convPat : List STy → List (Option Seq) → Except Err (List (Option Seq))
+  | t :: ts, some a :: as => do
+    let a' ← convSeq t a
+    let r ← convPat ts as
+    pure (some a' :: r)
+  | _ :: ts, none :: as => do
+    let r ← convPat ts as
+    pure (none :: r)
+  | _, as => pure as
+
+/-- conversion by an optional signature (an untyped function converts nothing) -/
+def sigArgs : Option Sig → List Seq → Except Err (List Seq)
+  | none, as => .ok as
+  | some sg, as => convArgs sg.1 as
+
+def sigRes : Option Sig → Seq → Except Err Seq
+  | none, r => .ok r
+  | some sg, r => convSeq sg.2 r
+
+def sigPat : Option Sig → List (Option Seq) → Except Err (List (Option Seq))
+  | none, p => .ok p
+  | some sg, p => convPat sg.1 p
+
 /-! ### partial application patterns -/
 
 /-- number of placeholders in an argument pattern -/
@@ -296,6 +381,8 @@ structure SObj where
   fixed : Option (List (Option Seq))
   /-- the focus captured by a named function reference -/
   focus : Focus := (none, 1, 1)
+  /-- declared signature of a typed inline function -/
+  sig : Option Sig := none
   deriving Repr, Inhabited
 
 abbrev SHeap := List SObj
@@ -433,8 +520,11 @@ def specCall (a : Nat) (args : List Seq) : SM Seq := do
   | .builtin b =>
     if full.length = b.arity then SM.lift (b.apF o.focus full) else SM.throw .XPTY0004
   | .inline ps body =>
-    if full.length = ps.length then
-      ev body { lex := ps.zip full ++ o.lex, item := none }
+    if full.length = ps.length then do
+      -- function conversion rules for the arguments, then for the result
+      let conv ← SM.lift (sigArgs o.sig full)
+      let r ← ev body { lex := ps.zip conv ++ o.lex, item := none }
+      SM.lift (sigRes o.sig r)
     else SM.throw .XPTY0004
 
 /-- §3.1.5.1 partial function application: the fixed arguments are evaluated now; the result is a
@@ -444,7 +534,9 @@ def specPartial (c : SCtx) (a : Nat) (args : List (Option Expr)) : SM Seq := do
   if args.length = o.arity then do
     let vals ← specArgs ev c args
     let pat := match o.fixed with | none => vals | some old => refill old vals
-    let n ← SM.alloc { code := o.code, lex := o.lex, fixed := some pat, focus := o.focus }
+    -- the fixed arguments are converted to the declared parameter types now
+    let pat' ← SM.lift (sigPat o.sig pat)
+    let n ← SM.alloc { code := o.code, lex := o.lex, fixed := some pat', focus := o.focus, sig := o.sig }
     pure [.fn n]
   else SM.throw .XPTY0004
 
@@ -538,6 +630,9 @@ def specStep (e : Expr) (c : SCtx) : SM Seq :=
     ev b { c with lex := (x, xv) :: c.lex }
   | .fnE _ ps body => do
     let n ← SM.alloc { code := .inline ps body, lex := c.lex, fixed := none }
+    pure [.fn n]
+  | .tfnE _ ps tys rt body => do
+    let n ← SM.alloc { code := .inline ps body, lex := c.lex, fixed := none, sig := some (tys, rt) }
     pure [.fn n]
   | .named b => do
     -- the reference captures the focus of the place where it is evaluated
